@@ -43,7 +43,7 @@ def nextperm(l):
 def combink(l,p,k,r=None):
     assert k>=0
     n = len(l)
-    assert 0<p<=n
+    assert 0<=p<=n
     # index list shared by the recursion levels of one enumeration:
     if r is None:
         r = list(range(n))+[-1]
